@@ -76,6 +76,27 @@ NEEDS.update({
  "C17h": ("prover's early gens_capacity < n1 guard removed as 'redundant'", "capacity below n1: first-phase msm(..).unwrap() panics instead of the error"),
  "C18h": ("multiply/allocate_multiplier/allocate(None) routed through push_multiplier which also clears the pending gate (both roles)", "allocate, multiply, allocate: wiring differs from the reference, recorded proofs rejected"),
 })
+NEEDS.update({
+ "C01i": ("verification_scalars skips (continue) the scalar of a commitment whose flattened weight is zero; the point lists keep every V", "a commitment no constraint mentions, or whose coefficients cancel: msm length mismatch panics on an honest proof"),
+ "C02i": ("constraint count q captured before the randomized callbacks; z powers precomputed with take(q) and zipped with the constraints (both roles)", "a violated constraint added in the second phase gets weight 0"),
+ "C03i": ("verifier flatten: `if lc.terms.is_empty() { continue; }` also skips exp_z *= z", "an empty linear combination that is not the last constraint"),
+ "C05i": ("both flattenings return all-zero weights early when the multiplier count is 0", "purely linear circuit over committed values: changed coefficient or constant accepted"),
+ "C06i": ("Verifier::commit returns the existing variable early for a repeated point (no push, no absorb); prover unchanged", "the same commitment point committed twice"),
+ "C07i": ("batch_verify skips (continue) an instance whose proof reference was already seen in the batch, ignoring the verifier it is paired with", "the same proof object twice, the second time against a different statement"),
+ "C08i": ("ipp verification_scalars collects round challenges with flat_map over a Result-returning helper: Err items are dropped", "identity point in L_vec/R_vec with correct list lengths: challenges too short, index panic"),
+ "C09i": ("prover RNG builder created lazily in the first commit() from the transcript of that moment; prove only finalizes it", "two statements diverging after the first commitment with equal blindings and external randomness: identical nonces"),
+ "C10i": ("ipp verification_scalars replays the L/R rounds on transcript.clone() and never merges the fork back", "a verifier transcript reused after an argument with at least one round"),
+ "C11i": ("hand-written CanonicalDeserialize for InnerProductProof reads a, b with from_random_bytes (masks the spare top bits)", "scalar field shorter than 256 bits: non-canonical a/b accepted, re-encodes differently"),
+ "C12i": ("increase_capacity records the new capacity (mem::replace) before the nothing-to-do early return", "a request smaller than the current capacity followed by a real increase: generators duplicated"),
+ "C13i": ("commit as one shared double-and-add chain with terms ordered by two independent comparisons (v >= r, v <= r)", "value == blinding: commit(s,s) = 2sB"),
+ "C15i": ("LC Add/Sub through append_with(self, rhs, f) which returns rhs unchanged when the left side is empty", "subtraction from an empty linear combination: 0 - e yields e"),
+ "C16i": ("Verifier::commit returns the existing Committed(i) early when the point is already in V (prover untouched)", "commit(X), commit(X), commit(Y): handles shifted on the verifier"),
+ "C17i": ("shared padded_circuit_size(n, bp_gens) helper returns Ok(1) for n == 0 before the capacity comparison", "zero gates and capacity 0: panic instead of InvalidGeneratorsLength"),
+ "C18i": ("append_point silently appends nothing for an identity point (if let Ok(bytes) = encode_point(..))", "one-phase circuits: A_I2/A_O2/S2 no longer absorbed on either side, recorded proofs rejected"),
+})
+NEEDS.update({
+ "C04i": ("round challenges u_j pulled from one ChaCha stream keyed once after the ipp domain separator (both roles); L_j, R_j still absorbed", "at least one round: (L_j, R_j) -> (L_j + D, R_j - u_j^4 D) still verifies"),
+})
 sid = sys.argv[1]
 src = f"/tmp/seed_out/{sid}"
 dst = f"/verif/seeded/{sid}"
@@ -90,7 +111,7 @@ for f in ("patch.diff", "seed_demo.rs", "notes.md", "confirm.txt"):
 what, needs = NEEDS.get(sid, ("", ""))
 meta = {
  "id": sid, "breaks_property": sid[:3], "change": what, "needs_to_manifest": needs,
- "origin": ("written by an independent sub-agent given only the property text and a scratch worktree" + (", asked for two cooperating sites / a multi-step sequence / an unusual input (round h)" if sid.endswith("h") else "")),
+ "origin": ("written by an independent sub-agent given only the property text and a scratch worktree" + (", asked for two cooperating sites / a multi-step sequence / an unusual input (round h)" if sid.endswith("h") else (", asked for a control-flow slip / an error-path or partial-update slip / an abstraction slip (round i)" if sid.endswith("i") else ""))),
  "confirmed_by": "tools/confirm_seed.sh in a scratch worktree outside /repo and /verif: demo passes on the pristine tree; with the patch all 78 existing tests pass and the demo fails",
  "confirm_verdict": (re.search(r"== verdict: (.*)", conf).group(1) if re.search(r"== verdict: (.*)", conf) else "see confirm.txt"),
  "demo": "seed_demo.rs (place at tests/seed_demo.rs; `cargo test --offline --test seed_demo`)",
